@@ -313,8 +313,21 @@ def best_of(chk, P, rule="R-CMP"):
         for c in f.calls(("hwloc__update_best_target", "hwloc__update_best_initiator")):
             k += 1
             a = strip(args(c)[-1])
-            ok = a["k"] == "Binary" and a["op"] == "&" and "HIGHER_FIRST" in src(a) and "flags" in src(a)
-            chk.inst(rule, f, "flag-arg#%d" % k, ok, "ordering flag argument is `<attr>->flags & HWLOC_MEMATTR_FLAG_HIGHER_FIRST` (%s)" % src(a), loc=f.loc(c))
+            # decided by evaluation (named temporaries resolved): non-zero exactly when the attribute's HIGHER_FIRST bit is set
+            import extent, peval
+            defs = extent.single_defs(f)
+            e = a
+            for _ in range(3):
+                if e["k"] == "Ref" and e["n"] in defs:
+                    e = strip(defs[e["n"]])
+            hf = f.unit.enum_consts.get("HWLOC_MEMATTR_FLAG_HIGHER_FIRST")
+            keys = sorted(set(lv(x) for x in subnodes(e) if x["k"] == "Member" and x["f"] == "flags" and lv(x)))
+            ok = False
+            if hf is not None and len(keys) == 1:
+                v1 = peval.Evaluator(f, {keys[0]: hf}).ev(e)
+                v0 = peval.Evaluator(f, {keys[0]: 0xffff & ~hf}).ev(e)
+                ok = v1 is not None and v1 != 0 and v0 == 0
+            chk.inst(rule, f, "flag-arg#%d" % k, ok, "ordering flag argument is non-zero exactly when the attribute's HWLOC_MEMATTR_FLAG_HIGHER_FIRST bit is set (evaluated on `%s`)" % src(e), loc=f.loc(c))
             n += 1
     return n
 
